@@ -12,7 +12,6 @@ typedef int MultiplierIndex;           /* SimTK unique-index type: an int with a
    (constructor asserts m_Fk.size()<=3 && m_Nk.size()<=3; UniContactRT::m_Fk holds 0 or 2). */
 enum { IDX_CAP = 6 };            /* UncondRT::m_mults: 1-6 multipliers (comment in PGSImpulseSolver.cpp) */
 struct IdxArray { unsigned n; int d[IDX_CAP]; int ghost_id; };
-struct Vec { int n; Real* d; };                 /* SimTK::Vector with contiguous data */
 struct Mat { int m; };                          /* SimTK::Matrix, entries only through Mat_get */
 struct RealArray { int opaque; };               /* Array_<Real> rowSums scratch, opaque here   */
 struct BigIdxArray { int opaque; };             /* `participating`, only handed to doRowSum(s) */
